@@ -177,7 +177,59 @@ def units(ctx):
     table_core(g, "integrate_chebyshev_second", "WEIGHTS_CHEBYSHEV_SECOND", True)
     table_core(g, "integrate_laguerre", "WEIGHTS_LAGUERRE", False)
     table_core(g, "integrate_gaussian_core", "WEIGHTS_LEGENDRE", True, tol_check=False, var="weights")
-    return [u, g, entry_unit(), romberg_unit()]
+    return [u, g, entry_unit(), romberg_unit(), tanhsinh_unit()]
+
+
+def tanhsinh_unit():
+    """integrate_core: the value returned is a level of the tanh-sinh (double exponential) refinement, and its error estimate passed"""
+    from vx.extract import Config
+    c = Config(extra_subst=[("FnMut", "Fn")])
+    # the table is an array of row slices; `for &weight in &WEIGHTS_DE` binds each row by reference: with the table shim
+    # (a Vec of rows) that is `for weight in vx_table(6).iter()`
+    c.extra = [("&weight", "weight", "R2-table-access"), ("&WEIGHTS_DE", "vx_table(6u8).iter()", "R2-table-access")]
+    e = Unit("C09", "tanhsinh", preludes=("real", "stdx"), cfg=c)
+    e.spec(r"""
+pub uninterp spec fn F(t: real) -> real;
+// one table entry (weight, node): the node and its mirror image
+pub open spec fn term_de(p: (R, R)) -> real { p.0@ * (F(p.1@) + F(-p.1@)) }
+pub open spec fn row_de(row: Seq<(R, R)>, n: int) -> real decreases n { if n <= 0 { 0real } else { row_de(row, n - 1) + term_de(row[n - 1]) } }
+// level k of the refinement:  I_(-1) = pi F(0),  I_k = I_(k-1) / 2 + (sum over row k)
+pub open spec fn level(t: Seq<Vec<(R, R)>>, k: int) -> real decreases k + 1 {
+    if k < 0 { rpi() * F(0real) } else { 0.5real * level(t, k - 1) + row_de(t[k]@, t[k]@.len() as int) }
+}
+// the change between consecutive levels
+pub open spec fn delta(t: Seq<Vec<(R, R)>>, k: int) -> real { rabs(0.5real * level(t, k - 1) - row_de(t[k]@, t[k]@.len() as int)) }
+pub open spec fn accepted_de(t: Seq<Vec<(R, R)>>, k: int, tol: real, v: real) -> bool {
+    0 <= k < t.len() && v == level(t, k) && (delta(t, k) == 0real || delta(t, k) * delta(t, k) < tol || delta(t, k) < tol)
+}
+""")
+    T = "table_spec(6)"
+    f = e.fn(IFILE, "integrate_core")
+    f.attrs = []
+    f.opt(continue_to_else=True)
+    f.mapfold("mf")
+    f.req("forall|t: R| f_0.requires((t,))", "forall|t: R, y: R| f_0.ensures((t,), y) ==> y@ == F(t@)", f"{T}.len() < 1000 && forall|k: int| 0 <= k < {T}.len() ==> (#[trigger] {T}[k])@.len() < 100000")
+    f.ens(f"res is Ok ==> exists|k: int| #![trigger level({T}, k)] accepted_de({T}, k, tol@, res->Ok_0@)")
+    f.loop(1, iter="it", invariant=[
+        "f == f_0", "forall|t: R| f_0.requires((t,))", "forall|t: R, y: R| f_0.ensures((t,), y) ==> y@ == F(t@)",
+        "half@ == 0.5real", f"{T}.len() < 1000 && forall|k: int| 0 <= k < {T}.len() ==> (#[trigger] {T}[k])@.len() < 100000",
+        f"integral@ == level({T}, it.index@ - 1)", "num_function_evaluations <= 1 + 200000 * it.index@",
+        f"it.index@ > 0 ==> current_delta@ == delta({T}, it.index@ - 1)",
+        "num_function_evaluations <= 13 ==> error_estimate@ == 1real + tol@",
+        "error_estimate@ == 1real + tol@ || (it.index@ > 0 && (error_estimate@ == current_delta@ || error_estimate@ == current_delta@ * current_delta@ || (error_estimate@ == 0real && current_delta@ == 0real)))",
+        f"forall|k: int| 0 <= k < it.history@.len() ==> *it.history@[k] == {T}[k]",
+    ], invariant_except_break=[])
+    f.loop(2, iter="it2", invariant=[
+        "vx_mfacc@ == row_de(weight@, it2.index@)",
+        "forall|k: int| 0 <= k < it2.history@.len() ==> *it2.history@[k] == weight@[k]",
+        "forall|p: &(R, R)| #[trigger] vx_mfg.requires((p,))",
+        "forall|p: &(R, R), y: R| #[trigger] vx_mfg.ensures((p,), y) ==> y@ == term_de(*p)",
+        "forall|a: R, b: R| #[trigger] vx_mfh.requires((a, b))",
+        "forall|a: R, b: R, y: R| #[trigger] vx_mfh.ensures((a, b), y) ==> y@ == a@ + b@",
+    ])
+    f.closure(1, tuple_param="&(R, R)", ret="vx_y: R", ensures=["vx_y@ == term_de(*vx_p1)"])
+    f.closure(2, params="sum: R, x: R", ret="vx_s: R", ensures=["vx_s@ == sum@ + x@"])
+    return e
 
 
 def romberg_unit():
@@ -278,6 +330,8 @@ fn integrate_core<F: Fn(R) -> R>(f: F, tol: R) -> (r: Result<R, String>)
 
 
 DECIDED = [
+    "integrate_core (tanh-sinh): an Ok result is level k of the double-exponential refinement over the table WEIGHTS_DE (I_(-1) = pi f(0), I_k = I_(k-1)/2 + sum_row w (f(x) + f(-x))) for some k, "
+    "and the change delta_k between the last two levels passed the stopping rule (delta_k = 0, delta_k^2 < tol or delta_k < tol); otherwise Err",
     "integrate_fixed (Romberg, 1 <= n <= 32): left >= right -> Err; otherwise Ok and the value is exactly entry (n, n) of the Romberg table of f on [left, right]: column 1 is the trapezoid rule refined by the midpoints "
     "a + (k - 1/2) h_i, k = 1..2^(i-2), column j is the Richardson extrapolation with 4^(j-1) - 1 (recursive spec `rom`)",
     "integrate_simpson: Err for left >= right and tol < 0; an Ok result is the sum of two-panel Simpson values over panels that tile [left, right] exactly, each of which passed its own local test |S2 - S1| < tol_i; every stack entry stores the samples and the Simpson value of its own panel (the pinned tree restored the wrong saved estimate: fixed); f is only evaluated inside [left, right]",
@@ -286,7 +340,7 @@ DECIDED = [
 ]
 NOT_DECIDED = [
     "accuracy against the true integral for non-polynomial integrands (the stopping heuristics are not error bounds); combined with C10 the accepted Gaussian rule is exact on polynomials of degree <= 2k+1",
-    "integrate_core (tanh-sinh level loop and its convergence heuristic) -- not under contract",
+    "integrate_core (tanh-sinh): that the accepted level is within tolerance of the integral (the convergence heuristic compares logarithms of consecutive changes; analytic)",
     "Romberg: that entry (n, n) of the table is exact for polynomials of degree <= 2n-1 (Euler-Maclaurin; exercised by the bounded witness probe only)",
     "termination of integrate_simpson (the level cap n_max bounds the depth; the loop itself is marked exec_allows_no_decreases_clause)",
     "the multiplication of the core's result by the scale in the entry points is verified only as executed code, not as a statement about the integral",
